@@ -51,7 +51,18 @@ class Table:
         cur().key(k)
         if c == 'hashkey':
             return k
-        t = z3.Select(self.cols[c], k.t)
+        arr = self.cols[c]
+        # read through updates at other keys (select-over-store with provably distinct indices)
+        from .values import _prove
+        while z3.is_app(arr) and arr.decl().kind() == z3.Z3_OP_STORE:
+            base, idx, val = arr.children()
+            if idx.eq(k.t):
+                return SBool(val) if c == 'compressed' else SInt(val)
+            if _prove(idx != k.t):
+                arr = base
+            else:
+                break
+        t = z3.Select(arr, k.t)
         return SBool(t) if c == 'compressed' else SInt(t)
 
     def with_row(self, k, vals):
@@ -314,7 +325,10 @@ class RowBatch:
             vals[conc(k)] = v
         hk = SStr.of(vals['hashkey'])
         cur().key(hk)
+        cur().ghost['$newest_key'] = hk          # ghost: the row appended last on this path (case splits of invariants)
         already = self.keys.has(hk)
+        from .values import _prove
+        fresh_key = _prove(z3.Not(already.t))       # provably a new key: its values are stored as they are
         t = self.table
         cols = dict(t.cols)
         for c, v in vals.items():
@@ -323,7 +337,9 @@ class RowBatch:
             if c not in cols:
                 raise Unsupported(f'row dict with unknown column {c}')
             new = (SBool.of(v) if c == 'compressed' else SInt.of(v)).t
-            cols[c] = z3.Store(cols[c], hk.t, z3.If(already.t, z3.Select(cols[c], hk.t), new))
+            cols[c] = z3.Store(cols[c], hk.t, new if fresh_key else z3.If(already.t, z3.Select(cols[c], hk.t), new))
+        if fresh_key:
+            already = SBool.of(False)
         b = RowBatch(self.keys.add(hk), Table(t.present, cols, t.next_id), self.n + 1, b_or(self.dup, already))
         b.has_id = getattr(self, 'has_id', False) or 'id' in vals
         b.fields = set(vals)
